@@ -83,7 +83,7 @@ def symmetric_projection(dim: int, p_val: int = 2, partial: bool = False) -> np.
 
     dimp = dim**p_val
 
-    if p_val == 1:
+    if p_val == 1 or dim == 1:
         return np.eye(dim)
 
     p_list = np.array(list(permutations(np.arange(p_val))))
